@@ -7,12 +7,13 @@ from ..tree import Arr, Frame, Raised, dtype_kind
 
 # kinds: f float64, i int64, b bool, T string (StringDType), U fixed-width string, D date, us datetime, O object
 KIND_DTYPE = {"f": "float64", "i": "int64", "b": "bool", "T": "string", "U": "<U%d" % symx.STR_K,
-              "D": "datetime64[D]", "us": "datetime64[us]", "s": "datetime64[s]", "O": "object"}
+              "D": "datetime64[D]", "us": "datetime64[us]", "s": "datetime64[s]", "O": "object", "td": "timedelta64[us]"}
 
 # datetime ticks are assumed within years 1..9999 (as in the property statements)
 _DAY_LO, _DAY_HI = -719162, 2932896
 _RANGE = {"D": (_DAY_LO, _DAY_HI), "s": (_DAY_LO * 86400, _DAY_HI * 86400 + 86399),
-          "us": (_DAY_LO * 86400 * 10**6, (_DAY_HI * 86400 + 86399) * 10**6 + 999999)}
+          "us": (_DAY_LO * 86400 * 10**6, (_DAY_HI * 86400 + 86399) * 10**6 + 999999),
+          "td": (-10**15, 10**15)}
 
 def sym_cell(kind, tag, allow_na=True):
     c = symx.ctx()
@@ -50,6 +51,7 @@ def scalar_of(cell, kind):
     if kind == "i": return SymI64(cell)
     if kind == "b": return SymBool(cell)
     if kind in ("T", "U"): return cell if isinstance(cell, str) else SymStr(cell)
+    if kind == "td": return symx.SymTD(cell, "us")
     if kind in _RANGE: return SymDT(cell, kind)
     return cell
 
@@ -57,6 +59,7 @@ def kind_of(arr):
     k = dtype_kind(arr.dtype)
     if k == "M":
         return arr.dtype[arr.dtype.index("[") + 1:-1] if "[" in arr.dtype else "D"    # generic unit: only NaT can be stored
+    if k == "m": return "td"
     return k
 
 # ------------------------------------------------------------------ predicates on cells
@@ -189,7 +192,7 @@ def summary_equal(a, ka, b, kb):
 def as_cell(v, kind):
     """cell term of a python-level scalar (symbolic scalar object, or a decoded concrete value)"""
     if isinstance(v, SymStr): return v.c
-    if isinstance(v, (SymF64, SymI64, SymBool, SymDT)): 
+    if isinstance(v, (SymF64, SymI64, SymBool, SymDT, symx.SymTD)):
         if kind == "f" and isinstance(v, SymI64): return symx.fp_of_bv(v.e)
         return v.e
     if kind == "f": return symx.fpval(v)
